@@ -3,7 +3,7 @@ CONFIG = dict(
     props=["DhcpProofs.Props.C13"],
     facts=["DhcpProofs.Facts.Lease", "DhcpProofs.Facts.V4Build"],
     streams=[("lease4", 8000, 270000), ("lease6", 6000, 180000)],
-    oracles=[("c13", 12000, 360000)],
+    oracles=[("c13", 12000, 360000), ("c10m", 200, 200)],
     full_statement_proved=False,
     missing=("The theorems are about the exchange logic over an ABSTRACT call sendAndRead stream match = first element "
              "of the routed stream the matcher accepts (none = no-response error); that the real SendAndRead is that call "
